@@ -181,7 +181,11 @@ func runC05(c C05Case) (res c05result) {
 			case "limit-window-cut":
 				at.Barrier()
 				topic := "att/win"
-				pl := a.WinTotal - (1 + 2 + 2 + len(topic)) // fixed header with a 2-byte remaining length, topic length prefix
+				lenBytes := 2 // bytes of the remaining-length field
+				if a.WinTotal-3 >= 16384 {
+					lenBytes = 3
+				}
+				pl := a.WinTotal - (1 + lenBytes + 2 + len(topic)) // fixed header, topic length prefix
 				pk := codec.Encode(&codec.Packet{Type: codec.PUBLISH, Topic: []byte(topic), Payload: bytes.Repeat([]byte{'W'}, pl)})
 				split := a.WinSplit
 				if split >= len(pk) {
@@ -492,9 +496,17 @@ func genC05(t *rapid.T) C05Case {
 		c.Attackers = append(c.Attackers, genAttacker(t, &c, i))
 	}
 	if rapid.IntRange(0, 3).Draw(t, "window") == 0 {
+		if rapid.IntRange(0, 3).Draw(t, "bigbuf") == 0 {
+			// a large non-default BufferSize: the same windows a megabyte further out
+			c.BufSize = 1 << 20
+		}
 		limit := c.BufSize - 8192
 		a := Attacker{StartAt: rapid.IntRange(0, 3).Draw(t, "startat"), End: "limit-window-cut", Kind: "valid-session-then-packet-around-the-size-limit-in-pieces", Origin: "valid session",
 			WinTotal: limit + rapid.IntRange(-1, 4).Draw(t, "wintotal"), WinSplit: limit + rapid.SampledFrom([]int{1, 1, 1, 2, 2, 0, -1, 3}).Draw(t, "winsplit")}
+		if c.BufSize > 16384 {
+			a.WinTotal = limit - rapid.SampledFrom([]int{0, 0, 1, 5000, 20000, 30000}).Draw(t, "bigunder")
+			a.WinSplit = rapid.SampledFrom([]int{100, 100, 5000, a.WinTotal - 3, limit - 40000}).Draw(t, "bigsplit")
+		}
 		a.Stream = codec.Encode(wire.ConnectPacket("win", true, 60))
 		c.Attackers = append(c.Attackers, a)
 	}
